@@ -19,12 +19,12 @@ Definition c29_leak (c : pcase) : bool := (i_status c =? 0) && (0 <? i_live c).
 (* the run ended with the caller asleep in the completion latch and nothing queued or running in the pool *)
 Definition c29_hang (c : pcase) : bool := (i_status c =? 2) && (i_blk c =? 1) && (i_wr c =? 0) && (i_q c =? 0).
 
-(* 0 agree & holds; 1 differ & holds; 2 fails outside the known findings; 4 the known leak: inside its domain AND exactly the payloads
-   the model predicts (tasks skipped by the cancelled wrapper / stranded in a queue); 5 the known hang: inside its domain and on the
-   model's trace *)
+(* 0 agree & holds; 1 differ & holds; 2 fails outside the known finding (this includes a caller asleep for ever in the completion
+   latch, repaired in /repo 1a07319); 4 the known leak: inside its domain AND exactly the payloads the model predicts (tasks skipped
+   by the cancelled wrapper / stranded in a queue) *)
 Definition judge_c29 (c : pcase) : Z :=
   if negb (c29_basic c) then 2
-  else if c29_hang c then (if hang_domain (p_cfg c) && agrees c then 5 else 2)
+  else if c29_hang c then 2
   else if c29_leak c then (if leak_domain (p_cfg c) && agrees c then 4 else 2)
   else if negb (i_status c =? 1) then (if agrees c then 0 else 1) else 2.
 (* native histories (no schedule, no model run): the leak is classified by its domain only *)
